@@ -6,6 +6,19 @@ case "$m" in
   *) b=$(basename $m .patch); prop=$(echo $b | cut -d- -f1)
      case "$b" in ok-*) origin=refactor;; *-b[0-9]*) origin="seed round 2";; *-c[0-9]*) origin="seed round 3";; *-d[0-9]) origin="seed round 4";; *-e[0-9]) origin="seed round 5";; *-f[0-9]) origin="seed round 6";; *seed*) origin="seed (ported)";; *revert*) origin="revert of fix";; *) origin=own;; esac;;
 esac
+if [ "$origin" != refactor ]; then
+  # a bad variant: the full decision (normal forms included) of the property it was written for, and which other
+  # properties report it on the program as written (their normal forms are not searched here: 20 searches per
+  # variant would take hours for the whole corpus)
+  own=$(/verif/tools/mutant.sh "$m" "$prop" 2>&1)
+  if echo "$own" | grep -q 'LOAD-FAILURE\|PATCH-FAILED'; then echo "B| $b | $origin | $prop | (does not apply to current tree) | |"; exit 0; fi
+  others=$(/verif/tools/mutant.sh "$m" all -inline 0 2>&1 | grep '^VIOLATION' | sed 's/VIOLATION property=\([A-Z0-9]*\).*/\1/' | grep -v "^$prop\$" | tr '\n' ' ')
+  first=$(echo "$own" | grep -E "^\s+\[(violated|undecided)\] $prop/" | head -1 | sed 's/^ *//; s/|/\\|/g' | cut -c1-220)
+  if echo "$own" | grep -q '^VIOLATION'; then by="$prop"; else by="**MISSED**"; fi
+  [ -n "$others" ] && by="$by (as written also: $others)"
+  echo "B| $b | $origin | $prop | $by | $first |"
+  exit 0
+fi
 res=$(/verif/tools/mutant.sh "$m" all 2>&1)
 if [ "$origin" = refactor ]; then
   if echo "$res" | grep -q 'LOAD-FAILURE\|PATCH-FAILED'; then echo "R| $b | (does not apply) |"; exit 0; fi
